@@ -30,13 +30,15 @@ Forms == [
   nestedslash |-> G("src/gen/", <<"s", "r", "c", "/", "g", "e", "n">>, FALSE),
   \* a pattern that names the search root itself when the root is `src` (the ignore file sits in an ancestor of the root)
   srcdir  |-> G("src", <<"s", "r", "c">>, FALSE),
+  \* `?` where a kept path has its directory separator: it must not match
+  qslash  |-> G("src?y.rs", <<"s", "r", "c", "?", "y", ".", "r", "s">>, FALSE),
   neg     |-> G("!keep.log", <<"k", "e", "e", "p", ".", "l", "o", "g">>, TRUE),
   comment |-> [G("# *.rs", <<>>, FALSE) EXCEPT !.blank = TRUE],
   blank   |-> [G("", <<>>, FALSE) EXCEPT !.blank = TRUE],
   rxend   |-> R("\\.log$", <<El("."), El("l"), El("o"), El("g")>>, FALSE, TRUE),
   rxstart |-> R("^build", <<El("b"), El("u"), El("i"), El("l"), El("d")>>, TRUE, FALSE),
   rxmid   |-> R("gen/o", <<El("g"), El("e"), El("n"), El("/"), El("o")>>, FALSE, FALSE) ]
-GlobForms == {"lit", "star", "dir", "dirstar", "deep", "one", "nested", "dirslash", "nestedslash", "srcdir", "comment", "blank"}
+GlobForms == {"lit", "star", "dir", "dirstar", "deep", "one", "nested", "dirslash", "nestedslash", "srcdir", "qslash", "comment", "blank"}
 FormsOf(t) == CASE t = "git" -> GlobForms \cup {"neg"} [] t = "docker" -> GlobForms \cup {"neg"}
                 [] t = "hgglob" -> GlobForms [] t = "hgrx" -> {"rxend", "rxstart", "rxmid", "comment", "blank"}
 
